@@ -90,7 +90,8 @@ def check_case(ctx, case, enum=False, cls_hint=None):
             res = vk.verify(_wrap(sig, mode), bytes.fromhex(case["via_data"][1]), hashfunc=hf,
                             sigdecode=DECODERS[dec], allow_truncate=at)
         else:
-            res = vk.verify_digest(_wrap(sig, mode), digest, sigdecode=DECODERS[dec], allow_truncate=at)
+            imp = {} if (at is False and len(digest) % 2) else {"allow_truncate": at}   # default left implicit
+            res = vk.verify_digest(_wrap(sig, mode), digest, sigdecode=DECODERS[dec], **imp)
         got = ("ret", res)
     except BadSignatureError:
         got = ("badsig",)
@@ -281,9 +282,83 @@ def mutated(ctx, cname, full):
     ctx.sample(dict(base, dec="der", sig=SU.encode_ref("der", rs[0], rs[1], n).hex(), note="seed of the mutation sweep"))
 
 
+def long_history(ctx, cname, rounds):
+    """the verdict for the n-th verification with one key object equals the verdict for the first: keys built
+    from point objects (with and without declared order), many calls, valid and invalid signatures mixed"""
+    from ecdsa import VerifyingKey
+    from ecdsa.ellipticcurve import Point, PointJacobi
+    d = gen.dom(cname)
+    n = d.n
+    dd = n // 3 + 2
+    Q = rec.mul(d.c, dd, d.G)
+    cf = d.lib.curve
+    keys = {
+        "point-no-order": VerifyingKey.from_public_point(Point(cf, Q[0], Q[1]), curve=d.lib),
+        "jacobi-no-order": VerifyingKey.from_public_point(PointJacobi(cf, Q[0], Q[1], 1), curve=d.lib),
+        "point-ordered": VerifyingKey.from_public_point(Point(cf, Q[0], Q[1], n), curve=d.lib),
+        "from-string": SU.make_vk(d, Q),
+    }
+    # one point object serving two keys on twin curves (same equation, other base point)
+    twin = gen.dom(cname + "-twin") if cname in gen.TOY_PRIME else None
+    shared = PointJacobi(cf, Q[0], Q[1], 1, n)
+    keys["shared-point"] = VerifyingKey.from_public_point(shared, curve=d.lib)
+    sigs = []
+    for i in range(6):
+        dig = hashlib.sha256(b"hist%d" % i).digest()[: SU.olen(n)]
+        e = SU.e_of(dig, n, True)
+        rs = rdsa.sign(d.ref, dd, 2 + i, e)
+        if rs != "RS-ZERO":
+            sigs.append((dig, rs, True))
+            sigs.append((dig, (rs[0], (rs[1] % (n - 1)) + 1), rdsa.verify(d.ref, Q, e, rs[0], (rs[1] % (n - 1)) + 1)))
+    twin_sigs = []
+    if twin is not None:
+        keys_twin = VerifyingKey.from_public_point(shared, curve=twin.lib)
+        # Q as a public key on the twin curve: its private key is dd/2 there (base point 2G)
+        d2 = dd * pow(2, -1, n) % n
+        for i in range(3):
+            dig = hashlib.sha256(b"twin%d" % i).digest()[: SU.olen(n)]
+            e = SU.e_of(dig, n, True)
+            rs = rdsa.sign(twin.ref, d2, 3 + i, e)
+            if rs != "RS-ZERO":
+                twin_sigs.append((dig, rs))
+    for rnd in range(rounds):
+        for kname, vk in keys.items():
+            dig, rs, want = sigs[rnd % len(sigs)]
+            ctx.ev()
+            case = {"kind": "history", "curve": cname, "key": kname, "round": rnd}
+            try:
+                got = vk.verify_digest(SU.encode_ref("string", rs[0], rs[1], n), dig, allow_truncate=True)
+            except BadSignatureError:
+                got = False
+            except Exception as ex:
+                ctx.fail("history/exception/%s/%s" % (kname, exc_sig(ex)), case, "call number %d: %r" % (rnd + 1, ex))
+                keys = {k2: v2 for k2, v2 in keys.items() if k2 != kname}
+                break
+            if got is not want:
+                ctx.fail("history/verdict-changed/%s" % kname, case, "call number %d: %r, expected %r" % (rnd + 1, got, want))
+        if twin is not None and twin_sigs:
+            dig, rs = twin_sigs[rnd % len(twin_sigs)]
+            ctx.ev()
+            try:
+                ok = keys_twin.verify_digest(SU.encode_ref("string", rs[0], rs[1], n), dig, allow_truncate=True)
+            except BadSignatureError:
+                ok = False
+            except Exception as ex:
+                ctx.fail("history/exception/twin-key/%s" % exc_sig(ex), {"kind": "history", "curve": cname, "key": "twin", "round": rnd}, repr(ex))
+                twin = None
+                continue
+            if ok is not True:
+                ctx.fail("history/twin-curve-key-rejects-valid-signature", {"kind": "history", "curve": cname, "key": "twin", "round": rnd},
+                         "the point object is shared with a key of the twin curve that verified before")
+    ctx.nontrivial(("history", cname, rounds))
+    ctx.sample({"kind": "history", "curve": cname, "rounds": rounds, "keys": sorted(keys)})
+
+
 def units(tier, seed):
     q = tier == "quick"
     out = []
+    out.append(("history", {"curve": "t251a", "rounds": 260 if q else 3000}))
+    out.append(("history", {"curve": "NIST192p", "rounds": 130 if q else 1200}))
     dg13 = [bytes([i << 3]) for i in range(32)]      # every e on a 5-bit order
     if q:
         for part in range(4):
@@ -321,6 +396,8 @@ def run_unit(ctx, name, **kw):
         ctx.sample({"curve": kw["curve"], "Q": "every %d-th multiple of G" % kw["qstep"], "digests": kw["digests"],
                     "r,s": "all of [0,n+1]^2", "decoders": "all three"})
         ctx.exhausted("%s: all (r,s) in [0,n+1]^2 x decoders for listed keys/digests" % kw["curve"])
+    elif name == "history":
+        long_history(ctx, kw["curve"], kw["rounds"])
     elif name == "constructed":
         for cname in kw["names"]:
             constructed(ctx, cname, kw["per"], ctx.seed)
@@ -370,4 +447,7 @@ def run_unit(ctx, name, **kw):
 
 
 def replay(ctx, case):
-    check_case(ctx, case)
+    if case.get("kind") == "history":
+        long_history(ctx, case["curve"], case["round"] + 5)
+    else:
+        check_case(ctx, case)
